@@ -9,6 +9,8 @@ Monitors
   hostile-request-refused-or-well-typed  near-miss requests must raise or
                                 return a well-typed value
 """
+import re
+
 from verif import ops
 from verif.gen import kits
 from verif.models.typing import well_typed
@@ -45,6 +47,24 @@ ASSUMPTIONS = [
     "counted as refusals and judged by the property owning that operation)"]
 
 _KITS = None
+_DIM_PAIR = re.compile(
+    r"^cross-class-[a-z-]+:(tensor\+(zx|cartesian)|(zx|cartesian)\+tensor)$")
+
+
+def dim_upgrade_drops_unit_wires(monitor, witness):
+    """
+    tensor.Diagram re-types its results with Dim.upgrade, and Dim(...) drops
+    every object named 1 ("Dim(1) == Dim()"): tensoring a tensor.Diagram with a
+    PRO-typed diagram (zx, cartesian: all wires are named 1) makes those wires
+    vanish from dom/cod while the boxes and offsets still refer to them.
+    """
+    label = witness.get("request") or witness.get("during_request") or ""
+    return monitor in ("hostile-request-refused-or-well-typed",
+                       "L1-constructed-diagram-ill-typed")\
+        and bool(_DIM_PAIR.match(label))
+
+
+PREDICATES = {"dim_upgrade_drops_unit_wires": dim_upgrade_drops_unit_wires}
 
 
 def setup(ctx):
@@ -68,7 +88,9 @@ def check(ctx, label, value, results):
     ctx.expect("returned-diagram-well-typed", ok, operation=label, reason=why,
                diagram=lambda: safe_repr(value),
                offsets=lambda: getattr(value, "offsets", None))
-    results.append(value)
+    if ok:
+        results.append(value)
+    return ok
 
 
 def run_case(rng, ctx):
@@ -86,7 +108,8 @@ def run_case(rng, ctx):
         trace.append(op.__name__)
 
         def emit(label, value):
-            check(ctx, label, value, results)
+            if check(ctx, label, value, results) is False:
+                return          # never feed an ill-typed value back into the pool
             if hasattr(value, "offsets") and len(value) <= 8\
                     and len(value.cod) <= 6 and len(value.dom) <= 6\
                     and type(value).__name__ != "Sum"\
@@ -105,6 +128,25 @@ def run_case(rng, ctx):
                    first_results=[safe_repr(r, 160) for r in results[3:6]])
     for _ in range(4):
         hostile(rng, ctx, kit)
+    cross_class(rng, ctx, kit)
+
+
+def cross_class(rng, ctx, kit):
+    """ Mixing diagram classes: refused, or a well-typed value. """
+    other = _KITS[rng.randrange(len(_KITS))]
+    if other.name == kit.name or "biclosed" in (kit.name, other.name):
+        return      # slash types are objects AND types: mixing them is undefined
+    a = kit.rand_diagram(rng, rng.randint(0, 2), width=2)
+    b = other.rand_diagram(rng, rng.randint(0, 2), width=2)
+    pair = kit.name + "+" + other.name
+    judge_hostile(ctx, "cross-class-tensor:" + pair, lambda: a @ b)
+    judge_hostile(ctx, "cross-class-tensor-chain:" + pair,
+                  lambda: (a @ b) @ a >> kit.id(a.cod) @ b[::-1][::-1] @ kit.id(a.cod))
+    judge_hostile(ctx, "cross-class-then:" + pair,
+                  lambda: a @ b >> (a @ b)[::-1] if kit.name != "cartesian" else a @ b)
+    judge_hostile(ctx, "cross-class-type-tensor:" + pair,
+                  lambda: kit.id(a.dom @ b.dom) @ other.id(b.cod @ a.cod))
+    judge_hostile(ctx, "cross-class-slice:" + pair, lambda: (a @ b)[:1])
 
 
 def cat_case(rng, ctx):
@@ -136,12 +178,15 @@ def cat_case(rng, ctx):
 
 
 def judge_hostile(ctx, label, fn):
+    ctx.current_request = label
     try:
         value = fn()
     except Exception as err:
+        ctx.current_request = None
         ctx.ok("hostile-request-refused-or-well-typed")
         ctx.count("hostile_refused")
         return
+    ctx.current_request = None
     ctx.count("hostile_returned_a_value")
     if not hasattr(value, "boxes"):
         ctx.ok("hostile-request-refused-or-well-typed")
